@@ -172,7 +172,7 @@ Qed.
 
 (* ---------- well-formed trees: what the harness builds (members of equal batch size, any nesting) *)
 Inductive wf_tree : arr -> list Z -> Prop :=
-  | wf_leaf j bs : wf_tree (Leaf j bs) bs
+  | wf_leaf j bs : Forall (fun s => 0 <= s) bs -> wf_tree (Leaf j bs) bs
   | wf_stack sd bs0 parts bs :
       parts <> [] -> wf_forall parts bs -> (sd <= List.length bs)%nat ->
       wf_tree (Stack sd bs0 parts) (insert_at sd (lenZ parts) bs)
@@ -215,7 +215,7 @@ Proof.
   revert a bs.
   apply (wf_tree_ind2 (fun a bs _ => forall I e, at_ a I = Some e -> in_range bs I = true)
                       (fun parts bs _ => forall p, In p parts -> forall I e, at_ p I = Some e -> in_range bs I = true)).
-  - intros j bs I e H. cbn [at_] in H. destruct (in_range bs I); [reflexivity|discriminate].
+  - intros j bs _ I e H. cbn [at_] in H. destruct (in_range bs I); [reflexivity|discriminate].
   - intros sd bs0 parts bs Hne _ IH Hsd I e H. rewrite at_stack in H.
     destruct (nth_error I sd) as [k|] eqn:Ek; [|discriminate].
     destruct (nthZ parts k) as [x|] eqn:Ex; [|discriminate].
@@ -236,3 +236,26 @@ Proof.
   - intros bs p [].
   - intros p parts bs _ IHp _ IHps q [Hq|Hq]; [subst; exact IHp| apply IHps; exact Hq].
 Qed.
+
+(* sizes are non-negative in a well-formed tree *)
+Lemma Forall_insert_at {A} (P : A -> Prop) k x l : P x -> Forall P l -> Forall P (insert_at k x l).
+Proof.
+  intros Hx Hl. unfold insert_at. apply Forall_app. split.
+  - apply Forall_forall. intros y Hy. apply (proj1 (Forall_forall _ _) Hl).
+    rewrite <- (firstn_skipn k l). apply in_or_app. left. exact Hy.
+  - constructor; [exact Hx|]. apply Forall_forall. intros y Hy. apply (proj1 (Forall_forall _ _) Hl).
+    rewrite <- (firstn_skipn k l). apply in_or_app. right. exact Hy.
+Qed.
+
+Lemma wf_nonneg a bs : wf_tree a bs -> Forall (fun s => 0 <= s) bs.
+Proof.
+  revert a bs.
+  apply (wf_tree_ind2 (fun a bs _ => Forall (fun s => 0 <= s) bs)
+                      (fun parts bs _ => parts <> [] -> Forall (fun s => 0 <= s) bs)).
+  - intros j bs H. exact H.
+  - intros sd bs0 parts bs Hne _ IH Hsd. apply Forall_insert_at; [unfold lenZ; lia|apply IH; exact Hne].
+  - intros bs H. congruence.
+  - intros p parts bs _ IHp _ _ _. exact IHp.
+Qed.
+
+Ltac wf_lit := repeat first [apply wf_leaf | apply wf_cons | apply wf_nil | apply Forall_cons | apply Forall_nil | lia].
